@@ -84,7 +84,7 @@ KINDS = ("node", "apside", "anomaly", "signal", "mask", "max", "radial", "umbra"
 
 # ------------------------------------------------------------------------------------------------
 def jobs(tier):
-    n = 72 if tier == "quick" else 1040
+    n = 64 if tier == "quick" else 1040
     return [{"name": "streams", "n": n, "eop": "real", "timeout": 1500 if tier == "quick" else 7200}]
 
 
@@ -1093,9 +1093,17 @@ def check_stream(ctx, st, env, stream, log, specs, stats, spec_of=None, skip_ids
                         else:
                             sc = sgn(gl)
                         continue
-                    ctx.violation(f"C10/shadow-state-differs-from-cone-geometry-{kind}", dict(wit(), sample=str(pt_.date), lib=gl, own=go),
+                    # same clause of the statement as the event times: the library's cone boundary is more than the
+                    # tolerance away (in time) from the independent cone.  One key per cone; the library's
+                    # classification is adopted for the <=> decision of this step so that the consequence
+                    # (an event "missing" / "spurious" w.r.t. the true cone) is not reported a second time.
+                    ctx.violation(f"C10/shadow-time-{kind}", dict(wit(), sample=str(pt_.date), lib=gl, own=go, source="sample classification"),
                                   f"{kind}: library classifies the sample at {pt_.date} as {'lit' if gl > 0 else 'shadow'} but the independent "
-                                  f"cone geometry gives g = {go!r} rad, and no cone crossing lies within the tolerance of the sample")
+                                  f"cone geometry gives g = {go!r} rad, and no cone crossing lies within {UMBRA_TOL if kind == 'umbra' else PENUMBRA_TOL} s of the sample")
+                    if pt_ is ppt:
+                        sp = sgn(gl)
+                    else:
+                        sc = sgn(gl)
                     continue
                 d = abs(gl - go)
                 if kind == "anomaly":
@@ -1188,12 +1196,13 @@ def sharpness(ctx, st, env, spec, ev, ept, wit, bsuf):
     except Exception as exc:
         ctx.violation("C10/propagate-around-event-raises", dict(wit(), exc=repr(exc)), f"speaker.propagate a few us around an event raised {exc!r}")
         return None
-    # the emitted state is the trajectory at the emitted date (same function, same date: identical up to the
-    # 1e-9 m round trip of a visibility point converted in place to the station frame; tolerance 1e-5 m is
-    # 1e4 x that and 1000 x smaller than the motion during one microsecond)
-    dpos = float(np.linalg.norm(p0.cart()[:3] - ept.cart()[:3]))
-    ctx.resid("event-state-vs-trajectory", dpos, 1e-5, key="C10/event-state-is-not-the-trajectory-at-its-date",
-              witness=dict(wit(), dpos=dpos), msg=f"{kind}: the event state at {ev.date} is {dpos!r} m away from speaker.propagate(event date)")
+    # the emitted state is the trajectory at the emitted date: same function, same date => identical numbers
+    # (probed: exactly 0).  Points that station.visibility() converted in place to the station frame are
+    # skipped (their way back costs up to 3e-6 m, which would blur a 1 us = 1.5e-3 m inconsistency check).
+    if ev.frame.name == env.native and ev.form.name == "cartesian":
+        dpos = float(np.linalg.norm(p0.cart()[:3] - ept.cart()[:3]))
+        ctx.resid("event-state-vs-trajectory", dpos, 1e-9, key="C10/event-state-is-not-the-trajectory-at-its-date",
+                  witness=dict(wit(), dpos=dpos), msg=f"{kind}: the event state at {ev.date} is {dpos!r} m away from speaker.propagate(event date)")
     if kind in ("umbra", "penumbra"):
         # the library's watched quantity is the discrete illumination state (+-1); the oracle's smooth
         # function is compared in time (shadow_time), not at the microsecond level
